@@ -233,3 +233,36 @@ func H_DatabaseTables() {
 	verif.Assert(len(g.Edges) == len(m.outs)+len(m.ins), "graph lists exactly the accepted inputs and outputs")
 	verif.Cover("exported")
 }
+
+// H_DependentsSnapshot: the list of dependent controllers handed out for a
+// change is a snapshot: registrations that happen afterwards (the runtime uses
+// the list after releasing the database lock) never alter it.
+func H_DependentsSnapshot() {
+	db, _ := dependency.NewDatabase()
+	ns, typ, id := verif.Atom("ns"), verif.Atom("type"), verif.Atom("id")
+	nKind := 1 + verif.Choose("kindWide", 4)
+	names := []string{"c1", "c2", "c3", "c4", "c5", "c6"}
+	for i := 0; i < nKind; i++ {
+		verif.Assert(db.AddControllerInput(names[i], controller.Input{Namespace: ns, Type: typ, Kind: controller.InputWeak}) == nil, "kind-wide input accepted")
+	}
+	byID := verif.Choose("byID", 2) == 1
+	if byID {
+		verif.Assert(db.AddControllerInput("byid", controller.Input{Namespace: ns, Type: typ, ID: optional.Some(id), Kind: controller.InputWeak}) == nil, "by-ID input accepted")
+	}
+	got, err := db.GetDependentControllers(controller.Input{Namespace: ns, Type: typ, ID: optional.Some(id)})
+	verif.Assert(err == nil, "dependents query succeeds")
+	snapshot := append([]string(nil), got...)
+	// a late registration on the same kind, and one on the same id
+	verif.Assert(db.AddControllerInput("late", controller.Input{Namespace: ns, Type: typ, Kind: controller.InputWeak}) == nil, "late kind-wide input accepted")
+	verif.Assert(db.AddControllerInput("late2", controller.Input{Namespace: ns, Type: typ, ID: optional.Some(id), Kind: controller.InputStrong}) == nil, "late by-ID input accepted")
+	verif.Assert(len(got) == len(snapshot), "snapshot length unchanged")
+	for i := range got {
+		verif.Assert(got[i] == snapshot[i], "the dependents list handed out earlier is not altered by later registrations")
+	}
+	want := nKind
+	if byID {
+		want++
+	}
+	verif.Assert(len(snapshot) == want, "dependents = kind-wide plus by-ID controllers")
+	verif.Cover("snapshot checked")
+}
